@@ -7,5 +7,6 @@ INVARIANT L1NoTrace
 INVARIANT L1Strict
 INVARIANT L1Success
 INVARIANT L1Crash
+INVARIANT L1IdxFail
 INVARIANT Hyp
 CHECK_DEADLOCK FALSE
